@@ -54,8 +54,33 @@ inline std::pair<std::size_t, bool> add_edge(std::size_t s, std::size_t t, RecGr
 #include <parmcb/forestindex.hpp>
 #include <tbb/tbb.h>
 namespace std { struct rec_system_error { rec_system_error(int, const error_category &, const char *) {} }; }
+// std::map<size_t, vertex> (red-black tree on the heap) is likewise replaced by a fixed-capacity array map with the same
+// interface (operator[], find, end) — a stub of the standard container, listed in the evidence.
+extern "C" int rec_map_overflow;
+int rec_map_overflow = 0;
+namespace std {
+template<class K, class V> struct rec_map {
+    struct value_type { K first; V second; };
+    typedef value_type *iterator;
+    value_type items[REC_MAXV + 1];
+    size_t n;
+    rec_map() : n(0) {}
+    iterator end() { return items + n; }
+    iterator find(const K &k) { for (size_t i = 0; i < n; i++) if (items[i].first == k) return items + i; return end(); }
+    V &operator[](const K &k) {
+        iterator it = find(k);
+        if (it != end()) return it->second;
+        if (n >= REC_MAXV) { rec_map_overflow = 1; return items[REC_MAXV].second; }
+        items[n].first = k;
+        items[n].second = V();
+        return items[n++].second;
+    }
+};
+}
 #define system_error rec_system_error
+#define map rec_map
 #include <parmcb/util.hpp>
+#undef map
 #undef system_error
 
 extern "C" __attribute__((noinline)) int w_read_dimacs(FILE *fp, RecGraph *g) {
